@@ -28,7 +28,7 @@ func newPosition
 func newRootPosition
   props C01 C02 C03 C04 C12
   ensures result != nil && fresh(result)
-  ensures result.Index == 0 && result.Height <= 64
+  ensures result.Index == 0 && result.Height <= 64 && result.Height == uint16(len64(version))
   ensures result.Height == 64 || version < (uint64(1) << uint64(result.Height))
   ensures result.Height == 0 || version >= (uint64(1) << uint64(result.Height - 1))
 
@@ -50,6 +50,8 @@ func position.Right
 func position.Bytes
   props C01 C02 C03 C04 C12
   ensures len(result) == 10 && fresh(result)
+  // ASSUMED as yet (memoised by newPosition: big-endian index, then big-endian height)
+  assumes bytes(result) == posb(p.Index, p.Height)
 
 // ---- operations -------------------------------------------------------------
 // The visitor interfaces are shared by the server-side visitors (which write
@@ -59,7 +61,7 @@ func position.Bytes
 func newLeafHashOp
   props C01 C02 C12
   requires pos != nil
-  ensures result != nil && fresh(result) && result.pos == pos
+  ensures result != nil && fresh(result) && result.pos == pos && result.Value == value
 
 func newInnerHashOp
   props C01 C02 C03 C12
@@ -89,59 +91,72 @@ func newCollectOp
   requires !isnil(op)
   ensures result != nil && fresh(result) && result.operation == op
 
+// For the hash-computing visitor, Accept returns evalC (/verif/contracts/spec/history.spec):
+// the clause of the interface method is, for each dynamic type, the proved postcondition of
+// that type's Accept below (dynamic dispatch itself is the Go runtime's and is trusted).
 func operation.Accept
   requires !isnil(visitor)
   modifies everything when !istype(visitor, *computeHashVisitor)
   may_panic
+  ensures istype(visitor, *computeHashVisitor) ==> bytes(result) == evalC(self, dyn(visitor, *computeHashVisitor))
 
 func operation.Position
   ensures result != nil
 
 func leafHashOp.Accept
-  props C12
+  props C02 C12
   requires !isnil(visitor)
   modifies everything when !istype(visitor, *computeHashVisitor)
   may_panic
+  ensures C02/evalC-leaf: istype(visitor, *computeHashVisitor) ==> bytes(result) == H(cat(bytes(o.Value), posb(o.pos.Index, o.pos.Height)))
 func innerHashOp.Accept
-  props C12
+  props C02 C12
   requires !isnil(visitor)
   modifies everything when !istype(visitor, *computeHashVisitor)
   may_panic
+  ensures C02/evalC-inner: istype(visitor, *computeHashVisitor) ==> bytes(result) == H(cat(cat(evalC(o.Left, dyn(visitor, *computeHashVisitor)), evalC(o.Right, dyn(visitor, *computeHashVisitor))), posb(o.pos.Index, o.pos.Height)))
 func partialInnerHashOp.Accept
-  props C12
+  props C02 C12
   requires !isnil(visitor)
   modifies everything when !istype(visitor, *computeHashVisitor)
   may_panic
+  ensures C02/evalC-partial: istype(visitor, *computeHashVisitor) ==> bytes(result) == H(cat(evalC(o.Left, dyn(visitor, *computeHashVisitor)), posb(o.pos.Index, o.pos.Height)))
 func getCacheOp.Accept
-  props C12
+  props C02 C12
   requires !isnil(visitor)
   modifies everything when !istype(visitor, *computeHashVisitor)
   may_panic
+  ensures C02/evalC-get: istype(visitor, *computeHashVisitor) ==> bytes(result) == pathval(dyn(visitor, *computeHashVisitor).cache, posb(o.pos.Index, o.pos.Height))
 func leafHashOp.Position
-  props C12
-  ensures result != nil
+  props C02 C12
+  ensures result != nil && result == o.pos
 func innerHashOp.Position
-  props C12
-  ensures result != nil
+  props C02 C12
+  ensures result != nil && result == o.pos
 func partialInnerHashOp.Position
-  props C12
-  ensures result != nil
+  props C02 C12
+  ensures result != nil && result == o.pos
 func getCacheOp.Position
-  props C12
-  ensures result != nil
+  props C02 C12
+  ensures result != nil && result == o.pos
 
+// (for the hash-computing visitor each clause is the proved postcondition of its method below)
 func opVisitor.VisitLeafHashOp
   modifies everything when !istype(self, *computeHashVisitor)
   may_panic
+  ensures istype(self, *computeHashVisitor) ==> bytes(result) == H(cat(bytes(op.Value), posb(op.pos.Index, op.pos.Height)))
 func opVisitor.VisitInnerHashOp
   modifies everything when !istype(self, *computeHashVisitor)
   may_panic
+  ensures istype(self, *computeHashVisitor) ==> bytes(result) == H(cat(cat(evalC(op.Left, dyn(self, *computeHashVisitor)), evalC(op.Right, dyn(self, *computeHashVisitor))), posb(op.pos.Index, op.pos.Height)))
 func opVisitor.VisitPartialInnerHashOp
   modifies everything when !istype(self, *computeHashVisitor)
   may_panic
+  ensures istype(self, *computeHashVisitor) ==> bytes(result) == H(cat(evalC(op.Left, dyn(self, *computeHashVisitor)), posb(op.pos.Index, op.pos.Height)))
 func opVisitor.VisitGetCacheOp
   modifies everything when !istype(self, *computeHashVisitor)
   may_panic
+  ensures istype(self, *computeHashVisitor) ==> bytes(result) == pathval(dyn(self, *computeHashVisitor).cache, posb(op.pos.Index, op.pos.Height))
 func opVisitor.VisitPutCacheOp
   modifies everything when !istype(self, *computeHashVisitor)
   may_panic
@@ -160,28 +175,46 @@ func newComputeHashVisitor
   ensures result != nil && fresh(result) && result.hasher == hasher && result.cache == cache
 
 func computeHashVisitor.VisitLeafHashOp
-  props C12
+  props C02 C12
   may_panic
+  ensures C02/leaf-hash: bytes(result) == H(cat(bytes(op.Value), posb(op.pos.Index, op.pos.Height)))
 func computeHashVisitor.VisitInnerHashOp
-  props C12
+  props C02 C12
   may_panic
+  ensures C02/inner-hash: bytes(result) == H(cat(cat(evalC(op.Left, v), evalC(op.Right, v)), posb(op.pos.Index, op.pos.Height)))
 func computeHashVisitor.VisitPartialInnerHashOp
-  props C12
+  props C02 C12
   may_panic
+  ensures C02/partial-hash: bytes(result) == H(cat(evalC(op.Left, v), posb(op.pos.Index, op.pos.Height)))
 func computeHashVisitor.VisitGetCacheOp
-  props C12
+  props C02 C12
   may_panic
+  ensures C02/cached-value: bytes(result) == pathval(v.cache, posb(op.pos.Index, op.pos.Height))
 
 // ---- pruning for verification (recursion on pos.Height terminates) ------------
+
+// C02, the binding step (DESIGN.md appendix A.5 b): whatever the audit path holds, if the
+// recomputation below pos comes out as the true hash of that subtree in the tree of
+// `version`, then the digest put into the leaf is the digest of event `index`. By induction
+// on the height: hash injectivity (collision resistance, an ASSUMPTION) and cancellation of
+// concatenation at equal lengths peel one level; the child on the path is itself a hash.
+//
+// x lies in the index range of the subtree at (i,h), and that range does not wrap around 2^64
+// (positions reached from a root are aligned, which implies it; alignment itself is not needed)
+define inRange(x, i, h) = i <= x && ((h >= 64 && i == 0) || (h < 64 && x - i < (uint64(1) << uint64(h)) && i + ((uint64(1) << uint64(h)) - 1) >= i))
 
 func pruneToVerify
   props C02 C12
   ensures !isnil(result)
+  ensures C02/binding-at-the-root: index <= version ==> forall v *computeHashVisitor :: (evalC(result, v) == Hist(0, uint16(len64(version)), version) ==> bytes(eventDigest) == ev(index))
 func pruneToVerify.traverse
   props C02 C12
   requires pos != nil
   decreases pos.Height
   ensures !isnil(result)
+  ensures C02/recomputation-is-a-hash: forall v *computeHashVisitor :: blen(evalC(result, v)) == hlen()
+  // (index <= version matters: beyond the version the leaf falls into a subtree that a partial node drops)
+  ensures C02/binding: index <= version && inRange(index, pos.Index, pos.Height) ==> forall v *computeHashVisitor :: (evalC(result, v) == Hist(pos.Index, pos.Height, version) ==> bytes(eventDigest) == ev(index))
 
 func pruneToVerifyIncrementalStart
   props C03 C12
@@ -238,8 +271,11 @@ func NewIncrementalProof
   requires !isnil(hasher)
   ensures result != nil && fresh(result) && result.StartVersion == start && result.EndVersion == end && result.AuditPath == auditPath
 
+// C02 for the history half: a proof that verifies against the TRUE root hash of version
+// p.Version binds the digest to the event that has version p.Index in that log
 func MembershipProof.Verify
   props C02 C12
+  ensures C02/history-binding: result && p.Index <= p.Version && bytes(expectedRootHash) == Hist(0, uint16(len64(p.Version)), p.Version) ==> bytes(eventDigest) == ev(p.Index)
 
 func IncrementalProof.Verify
   props C03 C12
